@@ -14,7 +14,8 @@ EXTRA = """
 
 ROUND %(rnd)d.  %(n)d changes for this property have ALREADY been written by others; do NOT repeat them or close variations (same function AND same kind of slip).  They were:
 %(prev)s
-This round wants changes in places the earlier ones did NOT touch.  Read the property's anchored mechanisms again and pick from: (e) a rarely used entry point or variant of the mechanism (the _ref / _cursor / _dynamic / _static / secure / _up_to / _many / _n / reverse / const variants, the portable fallback next to the optimised path, the path taken only for NULL / zero-length / maximum-length arguments); (f) an interaction between TWO objects (copy, swap, move, append one into the other, the same object passed as both arguments, a view into storage that is then reallocated); (g) an environment answer the code must cope with (the allocator returning the same address again or a differently aligned one, realloc moving or not moving, a short or failing write/read, a clock value at a boundary, the time zone, locale-independent formatting); (h) state that is cached or derived (a count, a flag, a cached minimum, a saved length, a hash code, a depth counter) getting out of step with the data it summarises on ONE uncommon path; (i) for properties about threads: an ordering between two client threads and the background/worker thread that needs at most two context switches at places you name.  Use a different category for each of your two changes and state it in the README.  The change must survive the ENTIRE existing test suite; prefer a bug that needs three or more steps to show over one that shows on the first call.  Avoid bugs whose only effect is a leak and ones that merely delete an argument check.
+%(focus)s
+(Reminder of the previous round's wording, for orientation only:) This round wants changes in places the earlier ones did NOT touch.  Read the property's anchored mechanisms again and pick from: (e) a rarely used entry point or variant of the mechanism (the _ref / _cursor / _dynamic / _static / secure / _up_to / _many / _n / reverse / const variants, the portable fallback next to the optimised path, the path taken only for NULL / zero-length / maximum-length arguments); (f) an interaction between TWO objects (copy, swap, move, append one into the other, the same object passed as both arguments, a view into storage that is then reallocated); (g) an environment answer the code must cope with (the allocator returning the same address again or a differently aligned one, realloc moving or not moving, a short or failing write/read, a clock value at a boundary, the time zone, locale-independent formatting); (h) state that is cached or derived (a count, a flag, a cached minimum, a saved length, a hash code, a depth counter) getting out of step with the data it summarises on ONE uncommon path; (i) for properties about threads: an ordering between two client threads and the background/worker thread that needs at most two context switches at places you name.  Use a different category for each of your two changes and state it in the README.  The change must survive the ENTIRE existing test suite; prefer a bug that needs three or more steps to show over one that shows on the first call.  Avoid bugs whose only effect is a leak and ones that merely delete an argument check.
 Write your results into /tmp/seed/out%(rnd)d-%(id)s/1 and /tmp/seed/out%(rnd)d-%(id)s/2.  Your worktree /tmp/seed/%(id)s may be at an older commit: first run `git -C /tmp/seed/%(id)s checkout -q --detach %(commit)s` (it must end up clean at that commit)."""
 for p in props:
     pid = p["id"]
@@ -24,6 +25,16 @@ for p in props:
     open(out + "/PROPERTY.txt", "w").write(open(prop_txt).read() if os.path.exists(prop_txt) else json.dumps(p, indent=1))
     prev = ["  * %s — trigger: %s" % NOTES[k] for k in sorted(NOTES) if k.startswith(pid + "-")]
     t = base.replace("/tmp/seed/out-@ID@", out).replace("@ID@", pid)
-    t += EXTRA % dict(rnd=rnd, n=len(prev), prev="\n".join(prev), id=pid, commit=commit)
+    focus = ""
+    if rnd >= 5:
+        focus = ("ROUND %d FOCUS (this overrides the category list further down).  The earlier rounds have been through off-by-ones, reordered updates, half-updated refusal paths, second-life boundaries, "
+                 "rarely used entry points and two-thread orderings.  What is wanted now are bugs that leave every LOCAL sanity check intact: (j) the data structure stays internally consistent (all its own "
+                 "validity predicates and invariants hold) but the ANSWER is wrong - the wrong one of two equal-looking elements, a stale but well-formed value, a result for a neighbouring input; "
+                 "(k) a bug in the interplay of two modules the property is anchored in (one module's output is legal on its own, the other misreads it); (l) a bug that exists only in what the compiler "
+                 "makes of the code at the shipped optimisation level or only in one of the build variants the headers select between (a dead store, an aliasing assumption, a variant-specific inline, an "
+                 "integer promotion), and is invisible when the same source is compiled -O0 / in the default variant; (m) behaviour that is wrong only for inputs at least 4 operations / 64 bytes / 3 nesting "
+                 "levels / 3 participants away from anything the existing tests and the obvious small cases reach.  State in the README which letter each change is, and why small exhaustive enumeration "
+                 "(all histories of up to 5 operations over 3 keys, all inputs of up to 4 symbols, 2 threads with 2 preemptions) would NOT find it.  ") % rnd
+    t += EXTRA % dict(rnd=rnd, n=len(prev), prev="\n".join(prev), id=pid, commit=commit, focus=focus)
     open(out + "/PROMPT.txt", "w").write(t)
 print("ok")
